@@ -150,7 +150,26 @@ static bool protocol_valid(const char *ref_text)
         }
     }
     bool ok = true;
-    if (ref_text && P_C14 && (strlen(ref_text) != tl || memcmp(ref_text, ample, tl))) ok = fail("render", "to_string text differs from the reference rendering");
+    /* capacities beyond 32 bits (a real, lazily backed arena of 2^32 + 64 KiB): ample is ample, whatever its low 32 bits say */
+    if (HISTORY == 0 && need < 60000) {
+        static char *arena; static bool tried;
+        const size_t G4 = (size_t) 1 << 32;
+        if (!tried) { tried = true; void *m = mmap(NULL, G4 + 65536, PROT_READ | PROT_WRITE, MAP_PRIVATE | MAP_ANONYMOUS | MAP_NORESERVE, -1, 0); arena = m == MAP_FAILED ? NULL : (char *) m; }
+        if (arena && sizeof(size_t) > 4) {
+            const size_t caps[] = { G4, G4 + 1, G4 + need - 1, G4 + need, G4 + 65535 };
+            for (int i = 0; ok && i < 5; i++) {
+                apply_history();
+                sz = caps[i];
+                cur_cap = -3; cur_nice = 0;
+                memset(arena, 0x5c, need + 1);
+                vf_count(CT_RUNS, 1);
+                bool r = binson_parser_to_string(L.p, arena, &sz, false);
+                if (!r || sz != need - 1 || memcmp(arena, ample, need))
+                    ok = fail("huge-capacity", "capacity 2^32 + %zu: returned %d, *size=%zu (text needs %zu + terminator)", caps[i] - G4, r, sz, need - 1);
+            }
+        }
+    }
+    if (ok && ref_text && P_C14 && (strlen(ref_text) != tl || memcmp(ref_text, ample, tl))) ok = fail("render", "to_string text differs from the reference rendering");
     free(ample);
     return ok;
 }
@@ -369,10 +388,15 @@ static void long_family(void)
     static uint8_t big[66000];
     for (size_t i = 0; i < sizeof big; i++) big[i] = (uint8_t) ('A' + i % 50);
     static const size_t lens[] = { 127, 128, 255, 256, 300, 32767, 32768, 65535, 65536, 66000 };
+    /* nul: 0 = payload without a 0x00; 1 = a 0x00 at offset 100 (the text ends there); 2 = a 0x00 as the last byte */
+    for (int nul = 0; nul < 3; nul++)
     for (size_t li = 0; li < sizeof lens / sizeof lens[0]; li++)
         for (int shape = 0; shape < 4; shape++) {
             if (!take()) continue;
             if (vf_deadline_passed()) return;
+            for (size_t i = 0; i < sizeof big; i++) big[i] = (uint8_t) ('A' + i % 50);
+            if (nul == 1) big[100] = 0;
+            if (nul == 2) big[lens[li] - 1] = 0;
             vf_b_reset(&ld);
             switch (shape) {
             case 0: vf_b_open(&ld, VK_OBJ); vf_b_name(&ld, "A", 1); vf_b_blob(&ld, VK_STR, big, lens[li]); vf_b_name(&ld, "B", 1); vf_b_int(&ld, 1); vf_b_close(&ld); break;
@@ -381,7 +405,7 @@ static void long_family(void)
             default: vf_b_open(&ld, VK_OBJ); vf_b_name(&ld, "A", 1); vf_b_open(&ld, VK_ARR); vf_b_blob(&ld, VK_BYT, big, lens[li]); vf_b_blob(&ld, VK_STR, big, lens[li]); vf_b_close(&ld); vf_b_close(&ld); break;
             }
             char lab[80];
-            snprintf(lab, sizeof lab, "long payload: shape %d, length %zu", shape, lens[li]);
+            snprintf(lab, sizeof lab, "long payload: shape %d, length %zu%s", shape, lens[li], nul == 1 ? ", 0x00 at offset 100" : nul == 2 ? ", 0x00 as last byte" : "");
             LONGDOC = lens[li] > 1000;
             run_valid(&ld, lab);
             LONGDOC = false;
@@ -404,6 +428,28 @@ static void value_family(void)
             int64_t v = (int64_t) (sgn ? (uint64_t) 0 - u : u);
             snprintf(lab, sizeof lab, "integer %lld", (long long) v);
             vcarrier_begin((k + d + sgn) & 1); vf_b_int(&VD, v); vcarrier_end(lab);
+        }
+    }
+    /* decimal boundaries: +-(10^k + d), k = 0..18, |d| <= 1, as integer; 10^k and 10^k - 0.5 as double for k = 0..22 and 10^300 */
+    {
+        int64_t p10 = 1;
+        for (int k = 0; k <= 18; p10 = k < 18 ? p10 * 10 : p10, k++) {
+            if (!take()) continue;
+            for (int d = -1; d <= 1; d++) for (int sg = 0; sg < 2; sg++) {
+                int64_t v = sg ? -(p10 + d) : p10 + d;
+                snprintf(lab, sizeof lab, "integer %lld", (long long) v);
+                vcarrier_begin((k + d + sg) & 1); vf_b_int(&VD, v); vcarrier_end(lab);
+            }
+        }
+        double dv = 1.0;
+        for (int k = 0; k <= 23; k++, dv *= 10.0) {
+            if (!take()) continue;
+            double cand[3] = { k == 23 ? 1e300 : dv, -(dv - 0.5), dv + 0.999999 };
+            for (int i = 0; i < 3; i++) {
+                uint64_t bits; memcpy(&bits, &cand[i], 8);
+                snprintf(lab, sizeof lab, "double with bits %016llx", (unsigned long long) bits);
+                vcarrier_begin((k + i) & 1); vf_b_dbits(&VD, bits); vcarrier_end(lab);
+            }
         }
     }
     /* sparse byte patterns far from every power of two (each byte 0x00 or a fill), as integer and as double */
